@@ -1,9 +1,11 @@
 import FlVerif.Drv.Leaf
+import FlVerif.Drv.Lang
 
 /-! Registry of driver command groups: one handler per group, tried in order (`none` = not mine / malformed). -/
 
 namespace Drv
 def handlers : List (List SExp → Option SExp) :=
   [ leaf
+  , lang
   ]
 end Drv
